@@ -73,7 +73,7 @@ def _fault_op(rng, sids):
     if r < 0.26:
         return [("peer", rng.choice(["eof", "reset", "reset", "timeout", "unreach"]))]
     if r < 0.36:
-        return [("peer", rng.choice(["garbage", "badcrc", "trunc"]))]
+        return [("peer", rng.choice(["garbage", "badcrc", "trunc", "badtext", "badenum", "short"]))]
     if r < 0.42:
         return [("peer", "status")]
     if r < 0.52:
